@@ -23,6 +23,7 @@ import (
 	"runtime"
 	"sync"
 	"sync/atomic"
+	"time"
 
 	"github.com/go-gl/gl/v2.1/gl"
 	"github.com/go-gl/glfw/v3.1/glfw"
@@ -41,7 +42,7 @@ func cfgQuiet(path string) gameboy.Config {
 }
 
 func run(c *rig.Ctx) {
-	c.Require("twin_frames", "progress_cases", "timer_irq_cases", "stop_close_cases", "stop_cancel_in_poll_cases", "stop_cancel_other_goroutine_cases", "stop_cases_lcd_off")
+	c.Require("twin_frames", "progress_cases", "timer_irq_cases", "stop_close_cases", "stop_cancel_in_poll_cases", "stop_cancel_other_goroutine_cases", "stop_cases_lcd_off", "timer_overflows_in_last_cycles_of_frame", "timer_irq_phase_cases_with_overflow", "stop_cases_deadline_context", "stop_cases_parent_context")
 
 	// A1: twin differential
 	c.Part("twin", c.N(60, 1200), func(i int64, r *rig.Rng) {
@@ -194,6 +195,49 @@ func run(c *rig.Ctx) {
 		c.Case(rig.Hash(uint64(i), uint64(tac)))
 	})
 
+	// A3b: the same at every phase of the frame's end: one overflow per frame, placed by the
+	// divider's starting value on every machine cycle of the last 256 (and so also on the very
+	// last one); the request must be there when the frame is over, exactly as when the same
+	// machine is stepped cycle by cycle in the documented order
+	c.Part("timerirq-phase", 256, func(i int64, r *rig.Rng) {
+		rom := rig.BlankROM(0, 0, 0)
+		path := emu.TempROM(rom, "c26p")
+		defer os.Remove(path)
+		setup := func() *gameboy.Gameboy {
+			gb := gameboy.New(cfgQuiet(path))
+			m := gb.XMapper()
+			gb.XInterrupts().Disable()
+			m.Write(0xffff, 0x00)
+			m.Write(0xff06, 0x80)
+			m.Write(0xff05, 187)
+			m.Write(0xff07, 0x04)
+			gb.XTimer().XSetCounter(uint16(i * 4))
+			m.Write(0xff0f, 0x00)
+			return gb
+		}
+		a, b := setup(), setup()
+		a.XRunFrame(context.Background())
+		at := -1
+		for k := 1; k <= 17556; k++ {
+			emu.Step(b)
+			if at < 0 && b.XMapper().Read(0xff0f)&0x04 != 0 {
+				at = k
+			}
+		}
+		ga, gb2 := a.XMapper().Read(0xff0f)&0x04 != 0, at >= 0
+		if ga != gb2 {
+			c.Violate("timer-irq-lost-at-frame-phase", fmt.Sprintf("divider starting at %04X, TIMA=BB, TAC=04: stepping cycle by cycle raises the timer request in machine cycle %d of the frame; after runFrame the request is present=%v", i*4, at, ga), nil)
+		}
+		if at >= 17553 {
+			c.Count("timer_overflows_in_last_cycles_of_frame", 1)
+		}
+		if gb2 {
+			c.Count("timer_irq_phase_cases_with_overflow", 1)
+		}
+		c.Count("timer_irq_cases", 1)
+		c.Exact(1)
+	})
+
 	// B: stopping
 	c.Part("stop", c.N(36, 400), func(i int64, r *rig.Rng) {
 		p := prog.Sound(r)
@@ -212,7 +256,21 @@ func run(c *rig.Ctx) {
 		gl.XReset()
 		portaudio.XReset()
 		portaudio.Sink = func(int64, []float32) {}
+		// how the context ends: cancelled, ended by a deadline (Err() = DeadlineExceeded), or
+		// through its parent
 		ctx, cancel := context.WithCancel(context.Background())
+		switch (i / 6) % 3 {
+		case 1:
+			mc := &manualCtx{done: make(chan struct{})}
+			ctx, cancel = mc, mc.expire
+			c.Count("stop_cases_deadline_context", 1)
+		case 2:
+			parent, pcancel := context.WithCancel(context.Background())
+			child, ccancel := context.WithTimeout(parent, 24*time.Hour)
+			defer ccancel()
+			ctx, cancel = child, pcancel
+			c.Count("stop_cases_parent_context", 1)
+		}
 		defer cancel()
 		var framesAtCancel int64 = -1
 		var cancelled int32
@@ -364,6 +422,31 @@ func (w *byteWatchdog) Write(p []byte) (int, error) {
 		panic("C26 watchdog: Run keeps executing frames long after the stop request (serial-byte clock)")
 	}
 	return len(p), nil
+}
+
+// manualCtx is a context that ends the way a deadline ends one (Done closed, Err() =
+// context.DeadlineExceeded), but at a moment the harness chooses.
+type manualCtx struct {
+	mu   sync.Mutex
+	done chan struct{}
+	err  error
+}
+
+func (m *manualCtx) Deadline() (time.Time, bool) { return time.Time{}, false }
+func (m *manualCtx) Done() <-chan struct{}       { return m.done }
+func (m *manualCtx) Value(any) any               { return nil }
+func (m *manualCtx) Err() error {
+	m.mu.Lock()
+	defer m.mu.Unlock()
+	return m.err
+}
+func (m *manualCtx) expire() {
+	m.mu.Lock()
+	defer m.mu.Unlock()
+	if m.err == nil {
+		m.err = context.DeadlineExceeded
+		close(m.done)
+	}
 }
 
 func main() {
